@@ -27,6 +27,7 @@ import (
 	"net/http/httptest"
 	"net/url"
 	"os"
+	"os/exec"
 	"path/filepath"
 	"runtime/debug"
 	"sort"
@@ -1146,12 +1147,160 @@ func (n *node) facts(encoded string, unsigned bool) vtvFacts {
 
 func main() { Main(run) }
 
+// ---- concurrency phase.  A data race on a map is a FATAL runtime error: it cannot be
+// recovered and kills the whole process, so the node of this phase lives in a child
+// process (this binary re-executed with VERIF_C28_CHILD=concurrency).  The child
+// builds a node, lets 32 client goroutines send 40 GETs each (distinct valid
+// addresses per request on the endpoints that take addrs, mixed with other cheap
+// GETs), checks that the node still answers, prints one JSON line and exits 0.
+
+type concResult struct {
+	Requests    int    `json:"requests"`
+	Answered    int    `json:"answered"`
+	NotAnswered int    `json:"not_answered"`
+	Panics      int    `json:"handler_panics"`
+	AliveAfter  bool   `json:"alive_after"`
+	FirstBad    string `json:"first_bad,omitempty"`
+}
+
+func concurrencyChild(args []string) error {
+	f := ParseFlags("c28", args)
+	logging.Disable()
+	r := NewRng(f.Seed ^ 0x5eed)
+	n, err := newNode(r)
+	if err != nil {
+		return err
+	}
+	if err := n.grow(3); err != nil {
+		return err
+	}
+	const clients, per = 32, 40
+	// distinct valid addresses, never seen by the node before
+	fresh := make([]string, clients*per*3)
+	for i := range fresh {
+		pk, _ := cipher.MustGenerateDeterministicKeyPair(append([]byte("conc"), r.Bytes(16)...))
+		fresh[i] = cipher.AddressFromPubKey(pk).String()
+	}
+	known := n.w.Addrs[1].String()
+	var mu sync.Mutex
+	res := concResult{}
+	var wg sync.WaitGroup
+	start := make(chan struct{})
+	for c := 0; c < clients; c++ {
+		wg.Add(1)
+		go func(c int) {
+			defer wg.Done()
+			<-start
+			for k := 0; k < per; k++ {
+				a, b, d := fresh[(c*per+k)*3], fresh[(c*per+k)*3+1], fresh[(c*per+k)*3+2]
+				var q reqSpec
+				switch (c + k) % 8 {
+				case 0:
+					q = reqSpec{method: "GET", path: "/api/v1/outputs", query: url.Values{"addrs": {a + "," + b}}}
+				case 1:
+					q = reqSpec{method: "GET", path: "/api/v1/balance", query: url.Values{"addrs": {a + "," + known + "," + d}}}
+				case 2:
+					q = reqSpec{method: "GET", path: "/api/v1/transactions", query: url.Values{"addrs": {a}, "verbose": {"1"}}}
+				case 3:
+					q = reqSpec{method: "GET", path: "/api/v2/transactions", query: url.Values{"addrs": {b + "," + a}}}
+				case 4:
+					q = reqSpec{method: "GET", path: "/api/v1/address_uxouts", query: url.Values{"address": {a}}}
+				case 5:
+					q = reqSpec{method: "GET", path: "/api/v1/outputs", query: url.Values{"addrs": {d + "," + a + "," + b}}}
+				case 6:
+					if k%2 == 0 {
+						q = reqSpec{method: "GET", path: "/api/v1/blockchain/metadata"}
+					} else {
+						q = reqSpec{method: "GET", path: "/api/v1/pendingTxs", query: url.Values{"verbose": {"1"}}}
+					}
+				default:
+					q = reqSpec{method: "GET", path: "/api/v1/blocks", query: url.Values{"start": {"0"}, "end": {"3"}}}
+				}
+				ob := n.do(fmt.Sprintf("c%d-%d", c, k), q, 20*time.Second)
+				mu.Lock()
+				res.Requests++
+				switch {
+				case ob.kind == "status" && ob.status >= 100 && ob.status < 599:
+					res.Answered++
+				case ob.kind == "panic":
+					res.Panics++
+					if res.FirstBad == "" {
+						res.FirstBad = q.path + "?" + q.query.Encode() + ": " + ob.detail
+					}
+				default:
+					res.NotAnswered++
+					if res.FirstBad == "" {
+						res.FirstBad = q.path + "?" + q.query.Encode() + ": " + ob.kind + " " + ob.detail
+					}
+				}
+				mu.Unlock()
+			}
+		}(c)
+	}
+	close(start)
+	wg.Wait()
+	res.AliveAfter = n.alive()
+	b, _ := json.Marshal(res)
+	fmt.Println(string(b))
+	n.abandon = true
+	n.close()
+	return nil
+}
+
+// runConcurrencyChild re-executes this binary as the node process of the concurrency phase.
+func runConcurrencyChild(args []string) (concResult, bool, string) {
+	var out, errb bytes.Buffer
+	cmd := exec.Command(os.Args[0], args...)
+	cmd.Env = append(os.Environ(), "VERIF_C28_CHILD=concurrency")
+	cmd.Stdout, cmd.Stderr = &out, &errb
+	done := make(chan error, 1)
+	if err := cmd.Start(); err != nil {
+		return concResult{}, false, "could not start the child: " + err.Error()
+	}
+	go func() { done <- cmd.Wait() }()
+	var werr error
+	select {
+	case werr = <-done:
+	case <-time.After(150 * time.Second):
+		cmd.Process.Kill() //nolint:errcheck
+		werr = fmt.Errorf("child did not finish within 150 s")
+	}
+	var res concResult
+	lines := strings.Split(strings.TrimSpace(out.String()), "\n")
+	ok := werr == nil && json.Unmarshal([]byte(lines[len(lines)-1]), &res) == nil
+	tail := errb.String()
+	if i := strings.Index(tail, "fatal error"); i >= 0 {
+		tail = tail[i:]
+	}
+	if len(tail) > 1500 {
+		tail = tail[:1500]
+	}
+	if werr != nil {
+		tail = werr.Error() + ": " + tail
+	}
+	return res, ok, tail
+}
+
 func run(args []string) error {
+	if os.Getenv("VERIF_C28_CHILD") == "concurrency" {
+		return concurrencyChild(args)
+	}
 	f := ParseFlags("c28", args)
 	logging.Disable()
 	r := NewRng(f.Seed)
 	o := NewOut()
 	hist := Hist{}
+	// the concurrency phase runs in its own node process, alongside the phases below
+	type concOut struct {
+		res  concResult
+		ok   bool
+		tail string
+	}
+	concC := make(chan concOut, 1)
+	go func() {
+		res, ok, tail := runConcurrencyChild(args)
+		concC <- concOut{res, ok, tail}
+	}()
 
 	var rf routesFile
 	data, err := ioutil.ReadFile(f.Extra)
@@ -1949,6 +2098,23 @@ func run(args []string) error {
 	o.Def("cases_requests", "Z * Z", reqTerms)
 	o.Def("cases_vtv", "vfacts * Z", vtvTerms)
 	o.Def("cases_unbounded_count", "Z", ubTerms)
+	// concurrency phase: 1 = every request answered and the process alive afterwards, 0 = not
+	co := <-concC
+	concCode := 0
+	if co.ok && co.res.NotAnswered == 0 && co.res.Panics == 0 && co.res.AliveAfter && co.res.Requests > 0 {
+		concCode = 1
+	}
+	cm := map[string]interface{}{"phase": "32 concurrent clients x 40 GETs (outputs, balance, transactions, v2 transactions, address_uxouts with distinct fresh addresses; metadata, pendingTxs, blocks) against a node in a child process",
+		"process_completed": co.ok, "requests": co.res.Requests, "answered": co.res.Answered, "not_answered": co.res.NotAnswered,
+		"handler_panics": co.res.Panics, "alive_after": co.res.AliveAfter, "first_bad": co.res.FirstBad}
+	if !co.ok {
+		cm["observed"] = "the node process died or did not finish"
+		cm["child_stderr"] = co.tail
+	}
+	caseJSON["concurrency"] = append(caseJSON["concurrency"], cm)
+	o.Def("cases_concurrency", "Z", []string{fmt.Sprint(concCode)})
+	o.Count("concurrency phase", true)
+	hist.Add(fmt.Sprintf("concurrency:requests=%d,ok=%v", co.res.Requests, concCode == 1))
 	o.Def("cases_last_blocks", "Z * Z * Z", lbTerms)
 	o.Def("cases_blocks_range", "Z * Z * Z * Z", brTerms)
 	o.Raw("Definition alive_at_end : bool := " + aliveTerm + ".\n")
